@@ -372,7 +372,9 @@ func New(options Options) *Interpreter {
 
 	i.opt.context.GOPATH = options.GoPath
 	if len(options.BuildTags) > 0 {
-		i.opt.context.BuildTags = options.BuildTags
+		// Copy the tags: yaegi:tags comments append to them, which must not
+		// write into a slice shared with the caller or with other interpreters.
+		i.opt.context.BuildTags = append([]string(nil), options.BuildTags...)
 	}
 
 	// astDot activates AST graph display for the interpreter
